@@ -4,6 +4,7 @@ import math
 from fractions import Fraction as F
 
 import numpy as np
+import pandas as pd
 from hypothesis import strategies as st
 
 from vlib import gen, kit, refbt
@@ -351,8 +352,18 @@ def run_csv(case, long_only=True):
             market.write_market(later, path + '_later')
             sources = [q.CSVDailyBarDataSource(path + '_later', q.Equity, adjust_prices=case['adjust'],
                                                csv_symbols=list(syms)), ds]
+        if case.get('second_source_also_quotes'):
+            # a second vendor quoting the same symbols on the same days at other prices, listed after the first: the
+            # first-listed source that can price an asset answers
+            other_v = {s: [r[:3] + [None if x is None else round(x * 1.5, 4) for x in r[3:]] for r in rows]
+                       for s, rows in syms.items()}
+            market.write_market(other_v, path + '_other')
+            sources = sources + [q.CSVDailyBarDataSource(path + '_other', q.Equity, adjust_prices=case['adjust'],
+                                                         csv_symbols=list(syms))]
         dh = q.BacktestDataHandler(None, data_sources=sources)
-        b = q.SimulatedBroker(t, q.SimulatedExchange(t), dh, initial_funds=case['equity'],
+        # the broker's own clock may lag the instant the sizer is asked about (cash only, so equity does not depend on it)
+        tb = t - pd.Timedelta(days=case.get('broker_days_back', 0))
+        b = q.SimulatedBroker(tb, q.SimulatedExchange(tb), dh, initial_funds=case['equity'],
                               fee_model=kit.fee_model(case['fee']))
         b.create_portfolio('p')
         b.subscribe_funds_to_portfolio('p', case['equity'])
@@ -372,9 +383,9 @@ def run_csv(case, long_only=True):
             raise Violation('sizing at %s raised although every asset is priced (%s)' % (t, price))
         finally:
             clear_caches()
-            if case.get('late_source_first'):
-                import shutil
-                shutil.rmtree(path + '_later', ignore_errors=True)
+            import shutil
+            shutil.rmtree(path + '_later', ignore_errors=True)
+            shutil.rmtree(path + '_other', ignore_errors=True)
     if unpriced:
         raise Violation('asset(s) %s have no bar at or before %s (first bars %s) yet the sizer returned %s' % (
             unpriced, t, {s: market.first_date(r) for s, r in syms.items()}, out))
@@ -387,6 +398,24 @@ def run_csv(case, long_only=True):
     if total > bound * (1 + F(1, 10 ** 9)):
         raise Violation('target costs %r at the point-in-time prices %s, more than %r' % (float(total), price, float(bound)))
     cls = ['priced']
+    # exact clause: the quantities are the documented sizing at exactly these point-in-time (ask) prices
+    wsum_ = sum(abs(w) for w in weights.values())
+    if wsum_ > 1e-6:
+        try:
+            fee_ = None if f == 0 else list(case['fee'])
+            wf = {a: F(w) for a, w in weights.items()}
+            pf = {a: F(price[a]) for a in weights}
+            ref = (refbt.size_long_only(E, F(case['arg']), fee_, wf, pf) if long_only
+                   else refbt.size_long_short(E, F(case['arg']), fee_, wf, pf))
+        except refbt.Ambiguous:
+            ref = None
+        if ref is not None:
+            for a in weights:
+                if out[a]['quantity'] != ref[a]:
+                    raise Violation('%s: quantity %d; sizing at the point-in-time ask %r gives %d (E=%r %s=%r w=%r fee=%r)' % (
+                        a, out[a]['quantity'], price[a], ref[a], float(E), 'buffer' if long_only else 'leverage',
+                        case['arg'], weights[a], case['fee']))
+            cls.append('exact_quantities_checked')
     if spread:
         cls.append('source_quotes_a_spread')
         # with a spread the budget inequality is tight enough to tell the ask from the bid
@@ -400,6 +429,10 @@ def run_csv(case, long_only=True):
         cls.append('files_' + order)
     if case.get('late_source_first'):
         cls.append('first_listed_source_starts_later')
+    if case.get('second_source_also_quotes'):
+        cls.append('second_source_also_quotes')
+    if case.get('broker_days_back'):
+        cls.append('broker_clock_behind_the_sizing_instant')
     return Result(cls, nontrivial=bool(spread) or order != 'sorted')
 
 
@@ -438,6 +471,8 @@ def csv_cases(draw, long_only=True):
     return {'file_order': draw(st.sampled_from(['sorted', 'reversed', 'shuffled'])),
             'spread': draw(st.sampled_from([0.0, 0.0, 0.02, 0.3])),
             'late_source_first': draw(st.sampled_from([False, False, True])),
+            'second_source_also_quotes': draw(st.sampled_from([False, False, True])),
+            'broker_days_back': draw(st.sampled_from([0, 0, 1, 4, 9])),
             'blank_first_open': blank, 'where': where, 'symbols': syms, 't': t, 'weights': w, 'equity': draw(st.sampled_from([1e6, 1e4, 250000.0])),
             'fee': draw(st.sampled_from([None, [0.001, 0.005]])), 'adjust': draw(st.booleans()),
             'arg': draw(st.sampled_from([0.05, 0.0, 0.3])) if long_only else draw(st.sampled_from([1.0, 2.0, 0.5]))}
